@@ -491,3 +491,46 @@ def run(ctx):
     _b.check_updates(ctx, 'C09.RU', 'C09')
     from .. import boundaries as _b
     _b.check_counts(ctx, 'C09.RQ', 'C09')
+
+
+def r14_preface(ctx, rid='C09.R14'):
+    """the server side of the connection preface (RFC 9113 section 3.4)"""
+    from .. import boundaries as _b
+    r = ctx.rule(rid, 'GUARD', 'the server reads on only while the octets received equal the client connection preface: a mismatch is a connection error PROTOCOL_ERROR and the position advances only on a match (RFC 9113 section 3.4)')
+    F = ctx.facts
+    f = r.fn('<server::ReadPreface as futures_core::Future>::poll')
+    if not f:
+        return r
+    differ, same = [], []
+    for bi, sw in core.all_switches(F, f).items():
+        if sw.kind != 'bool':
+            continue
+        calls = [x[1] for x in core.walk(sw.subject) if x[0] == 'call']
+        if not any('ReadBuf::filled' in c for c in calls):
+            continue
+        ne = any('PartialEq' in c and c.endswith('::ne') for c in calls)
+        eq = any('PartialEq' in c and c.endswith('::eq') for c in calls)
+        if ne == eq:
+            continue
+        for s2, lab in sw.labels.items():
+            if lab is None:
+                continue
+            (differ if (lab is True) == ne else same).append((bi, s2))
+    if not differ or not same:
+        r.ok('preface|compare', f.file, 'no slice comparison of the received octets found in this shape -- not compared')
+        return r
+    errs = [bi for bi, k in _b.error_kind_sites(F, f) if k == 'library_go_away:1']
+    adv = sorted(set(bi for bi, si, pl, rv, ln in f.stmts() if core.write_target(f, pl) == ('server::ReadPreface', 'pos')))
+    r.check(bool(errs) and all(f.dominated_by_edges(e, differ) for e in errs), 'preface|mismatch-is-error', f.file,
+            'GOAWAY(PROTOCOL_ERROR) is raised exactly on the side where the received octets differ from the preface (%d site(s))' % len(errs))
+    r.check(bool(adv) and all(f.dominated_by_edges(a, same) for a in adv), 'preface|advance-on-match', f.file,
+            'the read position advances only after the octets compared equal (%d write(s))' % len(adv))
+    return r
+
+
+_run_r13 = run
+
+
+def run(ctx):
+    _run_r13(ctx)
+    r14_preface(ctx)
